@@ -86,9 +86,10 @@ def rawToks (s : List Char) : List MTok :=
 /-- `shouldTrim` -/
 def shouldTrim (t : MTok) : Bool := t.val = ['0'] || t.val.isEmpty || t.val = kFinal || t.val = kGa
 
-/-- `for i >= 0 && tokens[i].prefix != "-" { i-- }` ; `none` = index out of range -/
+/-- `for i >= 0 && tokens[i].prefix != "-" { i-- }` ; `none` = index out of range, or the fuel (one
+unit per iteration) ran out -/
 def walkDown (ts : List MTok) : Nat → Int → Option Int
-  | 0, j => some j
+  | 0, _ => none
   | f + 1, j =>
     if j ≥ 0 then
       match ts[j.toNat]? with
@@ -108,7 +109,7 @@ def trimLoop : Nat → List MTok → Int → Option (List MTok)
       | some t =>
         if shouldTrim t then trimLoop fuel (ts.eraseIdx i.toNat) (i - 1)
         else
-          match walkDown ts (ts.length + 1) i with
+          match walkDown ts (ts.length + 2) i with
           | none => none
           | some j => trimLoop fuel ts (j - 1)
 
